@@ -1,5 +1,5 @@
 (* C12 — finite-horizon DP satisfies Bellman optimality; evaluation matches optimisation.
-   Statements only; every proof is [exact <lemma of Alg/FH_proofs.v>].
+   Statements only; every proof is [exact <lemma of Alg/FH_proofs.v or Alg/FHMyopic_proofs.v>].
    Model: Alg/FH.v.  [fh_opt] = one pass of finite_horizon_dp's "while not done" loop in optimisation mode on the grid
    xmin .. xmax = xmin + n - 1; [fh_eval um] = evaluation mode with the user's oul_matrix [um] (rows 0..T);
    [fh_restart] = the range-doubling loop.  Inputs (oracles, exact rationals of the implementation's floats):
